@@ -662,7 +662,7 @@ func ReadFunction(env *Zlisp, name string, args []Sexp) (sx Sexp, err error) {
 	default:
 		return SexpNull, WrongType
 	}
-	env.parser.ResetAddNewInput(bytes.NewBuffer([]byte(str)))
+	env.parser.ResetAddNewInput(WholeText(bytes.NewBuffer([]byte(str))))
 	//exp, err := env.parser.ParseExpression(0)
 	// have to use the iter interface...once.
 	for reply := range env.parser.ParsingIter() {
